@@ -51,8 +51,28 @@ def summ(vd):
             [[exact(tuple(f.path)) for f in rt.failures] for rt in vd.rule_tests], exact(vd.cast_data))
 
 
+def drive(gen, prog):
+    """Run a history generator (one `op = yield` per step, returns the Outcome) over a program."""
+    try:
+        next(gen)
+        for op in prog:
+            gen.send(op)
+        gen.send(None)
+    except StopIteration as e:
+        return e.value
+    raise AssertionError("history generator did not finish")
+
+
 def body(case):
     Ss, Ts, roots, docs, prog = case
+    return drive(history(Ss, Ts, roots, docs), prog)
+
+
+def history(Ss, Ts, roots, docs):
+    """Interpreter of a C18 history as a coroutine: every `op = yield` receives the next
+    operation (None = end); all invariants are checked after every step.  Driven by the
+    program-as-data test and by the Hypothesis state machine."""
+    prog = []
     out = Outcome()
     ns = build.ns()
     try:
@@ -78,7 +98,13 @@ def body(case):
     n_adds = {}
     validated_after_multi = False
     out.evals = 0
-    for step_i, op in enumerate(prog):
+    step_i = -1
+    while True:
+        op = yield
+        if op is None:
+            break
+        step_i += 1
+        prog.append(op)
         out.evals += 1
         if op[0] == "add":
             _, si, ti, ri = op
@@ -191,5 +217,68 @@ def body(case):
     return out
 
 
+def machine(seed, n, record):
+    """Hypothesis RuleBasedStateMachine over the same interpreter: the schemas, roots and
+    documents are decoded from a tape at initialisation; every rule draws ONE operation."""
+    import hypothesis as hy
+    from hypothesis import strategies as st
+    from hypothesis.stateful import RuleBasedStateMachine, rule, initialize, run_state_machine_as_test
+    from ..runner import hyp_settings
+
+    idx = st.integers(0, 255)
+
+    class M(RuleBasedStateMachine):
+        def __init__(self):
+            super().__init__()
+            self.g = None
+            self.done = None
+            self.prog = []
+
+        @initialize(t=st.binary(min_size=3072, max_size=3072))
+        def setup(self, t):
+            self.static = gen_case(G.R(t))[:4]
+            self.g = history(*self.static)
+            try:
+                next(self.g)
+            except StopIteration as e:
+                self.done = e.value
+
+        def send(self, op):
+            if self.done is not None or self.g is None:
+                return
+            self.prog.append(op)
+            try:
+                self.g.send(op)
+            except StopIteration as e:
+                self.done = e.value
+
+        @rule(si=idx, ti=idx, ri=idx)
+        def add(self, si, ti, ri):
+            Ss, Ts, roots, docs = self.static
+            self.send(("add", si % len(Ss), ti % len(Ts), ri % len(roots)))
+
+        @rule(si=idx, di=st.integers(0, 1))
+        def validate(self, si, di):
+            self.send(("validate", si % len(self.static[0]), di))
+
+        def teardown(self):
+            if self.g is None:
+                return
+            if self.done is None:
+                self.send(("validate", 0, 0))
+            if self.done is None:
+                try:
+                    self.g.send(None)
+                except StopIteration as e:
+                    self.done = e.value
+            if self.done is not None:
+                record(tuple(self.static) + (list(self.prog),), self.done)
+
+    run_state_machine_as_test(hy.seed(seed)(M), settings=hy.settings(hyp_settings(n), stateful_step_count=12))
+
+
 def tests(tier):
-    return [TestSpec("add-schema-history", gen_case, body, {"quick": 500, "thorough": 50000}, tape=4096, fuzz={"thorough": 15000})]
+    return [
+        TestSpec("add-schema-history", gen_case, body, {"quick": 500, "thorough": 50000}, tape=4096, fuzz={"thorough": 15000}),
+        TestSpec("add-schema-machine", gen_case, body, {"quick": 100, "thorough": 8000}, tape=4096, machine=machine),
+    ]
